@@ -275,6 +275,7 @@ pub struct RunCfg {
     pub stride: u64,
     pub emit_known: bool,
     pub targeted: bool,
+    pub targeted_budget: u64,
 }
 
 pub fn run<F: Flav>(pool: &Pool, rc: &RunCfg, rep: &mut Report)
@@ -361,7 +362,7 @@ where
             };
             crate::core::watchdog::tick(|| format!("{} targeted {}", F::NAME, txt));
             let saved = ck.budget;
-            ck.budget = 20_000;
+            ck.budget = rc.targeted_budget;
             let v = ck.verdict::<F>(&sc);
             ck.budget = saved;
             rep.count("targeted_scenarios");
